@@ -64,7 +64,7 @@ CHECKS = [
              "Copy-on-Write; timestamps as integers (absolute time); dropna().empty as a monotone predicate of the window",
      "not_covered": ["unsorted input (pandas raises)", "values inside the slice beyond 'only the last row is blanked' (frame ghost state)"],
      },
-    {"id": "C07", "level": "proof", "modules": ["contracts.C07_mask", "contracts.C19_aggregation"], "bounded": ["bounded.C07_mask"],
+    {"id": "C07", "level": "proof", "modules": ["contracts.C07_mask", "contracts.C19_aggregation"], "bounded": ["bounded.C07_mask", "bounded.pandas_contracts"],
      "technique": "deductive verification on a row-wise model of pandas (pyvc symbolic execution of the real _predict on one arbitrary row, z3)",
      "text": "The real DailyModel._predict (with _initialize_data, _meter_segment, _predict_submodel) is executed on one arbitrary row with "
              "explicitly tagged NaN / +-inf cells: in the returned frame predicted is present iff observed is present, a day without a finite "
@@ -74,7 +74,7 @@ CHECKS = [
              "billing aggregation is covered by C19",
      "not_covered": ["frames with duplicated index labels (data classes remove duplicates)", "frames carrying extra columns with NaN cells"],
      },
-    {"id": "C19", "level": "proof", "modules": ["contracts.C19_aggregation"], "bounded": ["bounded.C19_aggregation"],
+    {"id": "C19", "level": "proof", "modules": ["contracts.C19_aggregation"], "bounded": ["bounded.C19_aggregation", "bounded.pandas_contracts"],
      "technique": "deductive verification: the real BillingModel.predict executed on the row-wise model with abstract aggregates (pyvc, z3)",
      "text": "For every aggregation argument (all strings symbolically, plus non-string values) the real BillingModel.predict is executed: "
              "unaggregated iff None/any-case 'none', 'monthly' -> MS, 'bimonthly' -> 2MS, anything else rejected; each output column is the "
@@ -85,7 +85,7 @@ CHECKS = [
              "one row per calendar period and the partition law are exercised by the bounded part",
      "not_covered": ["pandas' binning of resample('MS'/'2MS') itself"],
      },
-    {"id": "C05", "level": "proof", "modules": ["contracts.C07_mask"], "bounded": ["bounded.C05_independence"],
+    {"id": "C05", "level": "proof", "modules": ["contracts.C07_mask"], "bounded": ["bounded.C05_independence", "bounded.pandas_contracts"],
      "technique": "deductive verification (row-wise symbolic execution of the real daily _predict: free symbols of the predicted cells) + bounded paired predictions of real hourly/CalTRACK models",
      "text": "Proof (daily/billing): the symbolic per-row expressions of predicted / predicted_unc / heating_load / cooling_load returned by the "
              "real _predict contain no symbol of the row's observed cell, for every split layout; observed only decides whether the row is "
@@ -94,7 +94,7 @@ CHECKS = [
      "note": "hourly / CalTRACK prediction paths run through scikit-learn, statsmodels and clustering code outside the verifier's reach: bounded only",
      "not_covered": ["hourly models whose baseline misses (month, weekday) pairs (excluded by the statement's precondition)"],
      },
-    {"id": "C06", "level": "proof", "modules": ["contracts.C07_mask"], "bounded": ["bounded.C06_dst", "bounded.C06_daily_rows"],
+    {"id": "C06", "level": "proof", "modules": ["contracts.C07_mask"], "bounded": ["bounded.C06_dst", "bounded.C06_daily_rows", "bounded.pandas_contracts"],
      "technique": "deductive verification (row-wise symbolic execution of the real daily _predict) + bounded-exhaustive run-time contract of the DST kernel over all IANA transitions",
      "text": "Proof (daily/billing): for one arbitrary input row the real _predict returns that row exactly once, in a frame produced by "
              "sort_index, without writing to the input, with predicted finite exactly when temperature (and usage, when supplied) is finite. "
@@ -115,7 +115,7 @@ CHECKS = [
      "not_covered": ["mutation inside scikit-learn / pandas objects by library code", "CalTRACK-hourly predict history beyond the flow obligations"],
      "explanation": "flow obligations + engine-A frame obligations discharged on every run; bounded histories labelled bounded",
      },
-    {"id": "C18", "level": "proof", "modules": ["contracts.C18_caltrack"], "bounded": ["bounded.C18_hours"],
+    {"id": "C18", "level": "proof", "modules": ["contracts.C18_caltrack"], "bounded": ["bounded.C18_hours", "bounded.pandas_contracts"],
      "technique": "deductive verification on the row-wise model (pyvc symbolic execution of the real weight / bin functions for one arbitrary hour, z3) + bounded-exhaustive hours",
      "text": "The real _segment_weights_* functions are executed for one arbitrary hour with a symbolic calendar month: full weight in exactly "
              "the segment centred on its month, one half in exactly the two neighbours (cyclic), the prediction map sends month k to the fitted "
@@ -138,7 +138,7 @@ CHECKS = [
              "tree has no developer flags, so the lock is vacuous there",
      "not_covered": ["settings changed after construction through private attributes"],
      },
-    {"id": "C13", "level": "proof", "modules": ["contracts.C13_selection", "contracts.C07_mask"], "bounded": ["bounded.C13_combinations"],
+    {"id": "C13", "level": "proof", "modules": ["contracts.C13_selection", "contracts.C07_mask"], "bounded": ["bounded.C13_combinations", "bounded.pandas_contracts"],
      "technique": "deductive verification of the argmin selection (symbolic criteria incl. NaN) and of the row routing on the row-wise model (pyvc, z3) + bounded-exhaustive enumeration of the real candidate generator",
      "text": "Proof: the real _best_combination returns the first candidate whose criterion is <= every other finite one, never a NaN-scored "
              "candidate, for every NaN pattern of up to 4 candidates and all real criterion values; the real _predict/_meter_segment give each "
@@ -148,7 +148,7 @@ CHECKS = [
      "note": "the argmin proof unrolls the candidate list (length fixed per case); selection_criteria's formulas and the ellipsoid filter itself are not under contract",
      "not_covered": ["the published formula of each selection criterion", "that the ellipsoid filter honours custom weekday maps (it hard-codes Mon-Fri)"],
      },
-    {"id": "C09", "level": "proof", "modules": ["contracts.C09_daymean", "contracts.C08_asfreq"], "bounded": ["flow.C09_tables", "bounded.C09_daymean"],
+    {"id": "C09", "level": "proof", "modules": ["contracts.C09_daymean", "contracts.C08_asfreq"], "bounded": ["flow.C09_tables", "bounded.C09_daymean", "bounded.pandas_contracts"],
      "technique": "deductive verification of the half rule and of as_freq (instantaneous) on a row-wise model (pyvc, z3) + call-site table obligations + bounded per-meter-day reference through the real data classes",
      "text": "Proof: for one arbitrary day of the aggregated frame, _compute_temperature_features (daily and billing classes, real source) blanks the day's "
              "temperature exactly when half or fewer of its readings are present (hourly feeds: not_null / (not_null + null) <= 1/2; sub-hourly feeds: "
@@ -160,7 +160,7 @@ CHECKS = [
              "ones is decided by the bounded part only. Known findings C09-subhourly-counts-are-flags, C09-subhourly-offhour-meter, C09-billing-23h-half. "
              "A day with no present reading carries NaN/NaN counts; accepted as 'no counts' (it fails the coverage test either way).",
      "not_covered": ["15-minute feeds", "feeds whose offset is not a whole number of sampling intervals (outside the quantifier)"]},
-    {"id": "C10", "level": "proof", "modules": ["contracts.C10_sufficiency"], "bounded": ["flow.C10_tables", "bounded.C10_boundary"],
+    {"id": "C10", "level": "proof", "modules": ["contracts.C10_sufficiency"], "bounded": ["flow.C10_tables", "bounded.C10_boundary", "bounded.pandas_contracts"],
      "technique": "deductive verification of the threshold checks (integer VCs) and of the day counting / data-dependent checks on a row-wise model (pyvc, z3) + call-set / writer-set table obligations from the AST + bounded end-to-end verdicts at the thresholds",
      "text": "Proof: each day-count check of SufficiencyCriteria appends exactly its own disqualification iff its published criterion (span outside "
              "329-365; valid days / meter days / temperature days under 90% of the span, in integer arithmetic) and writes nothing else, for all "
@@ -191,7 +191,7 @@ CHECKS = [
      "note": "history independence is a whole-history property; the deductive part decides the seed contract and the ownership invariant, the frame "
              "conditions are conditions of the argument and the bounded part decides the rest; nlopt / sklearn / numba determinism is assumed",
      "not_covered": ["CalTRACK hourly fits in the bounded part", "bit-identity across machines / BLAS builds (not claimed by the property)"]},
-    {"id": "C08", "level": "proof", "modules": ["contracts.C08_conserve", "contracts.C08_asfreq"], "bounded": ["flow.C08_tables", "bounded.C08_conserve"],
+    {"id": "C08", "level": "proof", "modules": ["contracts.C08_conserve", "contracts.C08_asfreq"], "bounded": ["flow.C08_tables", "bounded.C08_conserve", "bounded.pandas_contracts"],
      "technique": "deductive verification of as_freq and the cleaning steps on a row-wise model (pyvc, z3) + call-site table obligations + bounded exact-arithmetic conservation through the real data classes",
      "text": "Proof: for one arbitrary row of an arbitrary frame, downsample_and_clean_daily_data keeps every day, blanks a day covered for half or "
              "less and divides a day covered for more than half by its coverage (a fully covered day is the plain sum); clean_billing_data keeps "
@@ -207,7 +207,7 @@ CHECKS = [
              "asfreq / resample behave as assumed, and the end-to-end numbers, are decided by the bounded part only; known finding "
              "C08-subdaily-gap-not-scaled; fix 8ca01c07 (calendar-day period lengths)",
      "not_covered": ["pandas' asfreq / resample themselves (assumed contracts, exercised by the bounded part)", "readings not aligned to the reading interval / local midnight (outside the property's quantifier)"]},
-    {"id": "C17", "level": "proof", "modules": ["contracts.C17_prepare"], "bounded": ["flow.C17_frame", "bounded.C17_keep"],
+    {"id": "C17", "level": "proof", "modules": ["contracts.C17_prepare"], "bounded": ["flow.C17_frame", "bounded.C17_keep", "bounded.pandas_contracts"],
      "technique": "deductive verification of interpolate() on a row-wise model (pyvc, one arbitrary row of an arbitrary frame, z3) + AST frame obligation on _interpolate_col + bounded cell-by-cell comparison through the real hourly data classes",
      "text": "Proof: for one arbitrary row of an arbitrary frame and every branch of the lag selection, interpolate() keeps every cell that was "
              "present on entry, sets interpolated_<col> exactly when the cell was missing on entry and is present on exit, leaves no cell missing "
